@@ -186,3 +186,34 @@ Definition r_cold_list := exec_seq GenTables cfg_shared w_cold_list [OAppend k_c
 Lemma list_sequential_cold_cache_witness :
   (snd r_cold_list, tget (fst r_cold_list) TPers k_cmap) = ([Some ROk; Some (RVal (VList [7%N]))], Some (VList [7%N; 8%N])).
 Proof. vm_compute. reflexivity. Qed.
+
+(* ---- statements used by Properties/C14.v ---- *)
+Lemma tier_classes :
+  forall (c : cfg) (k : kbytes),
+  (category GenTables k = CRuntime -> allowed GenTables c k TLocal = true /\ allowed GenTables c k TShared = false /\ allowed GenTables c k TPers = false) /\
+  (category GenTables k = CShared -> allowed GenTables c k TPers = false /\ allowed GenTables c k TLocal = negb (has_shared c) /\
+                                     allowed GenTables c k TShared = has_shared c /\ cache_for_key GenTables c k = cache_tier_for_key GenTables c k) /\
+  (category GenTables k = CPersistent -> allowed GenTables c k TLocal = true /\ allowed GenTables c k TShared = false /\ allowed GenTables c k TPers = en_pers c) /\
+  (category GenTables k = CSharedPersistent -> allowed GenTables c k TLocal = negb (has_shared c) /\ allowed GenTables c k TShared = has_shared c /\
+                                               allowed GenTables c k TPers = en_pers c).
+Proof.
+  intros c k. split; [|split; [|split]]; intros Hc.
+  - unfold allowed, two_tier, cache_tier_for_key. rewrite Hc. cbn. auto.
+  - pose proof (cache_for_key_shared GenTables c k Hc) as He.
+    unfold allowed, two_tier, cache_tier_for_key, sp_cache in *. rewrite Hc in *. cbn.
+    destruct (has_shared c); cbn; auto.
+  - unfold allowed, two_tier, cache_tier_for_key. rewrite Hc. cbn. auto.
+  - unfold allowed, two_tier, cache_tier_for_key, sp_cache. rewrite Hc. cbn. destruct (has_shared c); cbn; auto.
+Qed.
+
+From TX Require Import Proofs.HybridOne.
+Lemma premises_ok :
+  two_tier GenTables cfg_local k_temp = false /\
+  Forall (thread1_ok k_temp) [TCaller (init_caller 0 [OSet k_temp (VStr 1); OGet k_temp; OIncr k_temp] []); TCaller (init_caller 1 [ODel k_temp; OSetNX k_temp (VStr 2)] []); TWb 0 false] /\
+  category GenTables k_user = CPersistent /\ category GenTables k_cmap = CSharedPersistent /\ category GenTables k_temp = CRuntime /\
+  category GenTables k_next_id = CShared.
+Proof.
+  split; [vm_compute; reflexivity|split].
+  - repeat constructor.
+  - repeat split; vm_compute; reflexivity.
+Qed.
